@@ -589,6 +589,11 @@ aead_chacha20_poly1305(IMB_JOB *job, const IMB_ARCH arch, const unsigned ifma)
         /* Finalize AEAD Poly1305 (final reduction and +S) */
         poly1305_aead_complete(hash, ks, job->auth_tag_output, arch, ifma);
 
+        /* Clear sensitive data from the stack (Poly1305 key and keystream) */
+#ifdef SAFE_DATA
+        clear_mem(ks, sizeof(ks));
+        clear_mem(hash, sizeof(hash));
+#endif
         job->status = IMB_STATUS_COMPLETED;
 
         return job;
